@@ -5,6 +5,7 @@ Runs the executable model (`JaxVerif/Model/*`) only; imports no Mathlib so that 
 import Lean.Data.Json
 import Driver.Codec
 import Driver.Hook
+import Driver.Make
 import JaxVerif.Model.Config
 import JaxVerif.Model.Gensym
 import JaxVerif.Model.Struct
@@ -129,6 +130,8 @@ def dispatch1 (j : Json) : Except String Json := do
   | "should" => cmdShould j
   | "imports" => cmdImports j
   | "cache" => cmdCache j
+  | "getitem" => skippable (cmdGetitem j)
+  | "pickle" => skippable (cmdPickle j)
   | "ping" => return jstr "pong"
   | _ => throw s!"unknown cmd {cmd}"
 
